@@ -33,9 +33,10 @@ type Case struct {
 }
 
 type result struct {
-	decs   []*apd.Decimal // every Decimal returned or written
-	parsed *apd.Decimal   // a successfully parsed Decimal (extra exponent checks)
-	note   string
+	decs     []*apd.Decimal // every Decimal returned or written
+	parsed   *apd.Decimal   // a successfully parsed Decimal (extra exponent checks)
+	rejected bool           // the call was turned away by argument validation (trivial case)
+	note     string
 }
 
 var ctxOps = []string{"add", "sub", "mul", "quo", "quointeger", "rem", "pow", "cmp", "abs", "neg", "round", "quantize", "rtie", "rtiv", "ceil", "floor", "reduce",
@@ -62,7 +63,7 @@ func init() {
 		op := op
 		entries["Context."+ctxMethodName[op]] = func(c Case) result {
 			o := arith.Call(op, c.Ctx.Apd(), new(apd.Decimal), c.X.Apd(), c.Y.Apd(), c.E, c.S)
-			r := result{decs: []*apd.Decimal{o.D}}
+			r := result{decs: []*apd.Decimal{o.D}, rejected: o.Err != nil && o.Res == 0}
 			if op == "setstring" && o.Err == nil {
 				r.parsed = o.D
 			}
@@ -219,7 +220,7 @@ func init() {
 		_ = v
 		return result{}
 	}
-	entries["Form.String"] = func(c Case) result { _ = apd.Form(c.X.Form).String(); return result{} }
+	entries["Form.String"] = func(c Case) result { _ = apd.Form(c.X.Form).String(); _ = apd.Form(int8(c.N)).String(); return result{} }
 	entries["Rounder.Round"] = func(c Case) result {
 		d := new(apd.Decimal)
 		apd.Rounder(c.Ctx.Rounding).Round(c.Ctx.Apd(), d, c.X.Apd(), c.N%2 == 0)
@@ -256,8 +257,10 @@ func init() {
 		_ = b.Text([]int{2, 10, 16, 36, 62}[uint64(c.N)%5])
 		_ = b.String()
 		_ = fmt.Sprintf(c.Fmt, b)
-		var n *apd.BigInt
+		var n *apd.BigInt // the nil receiver is documented to print "<nil>" like math/big
 		_ = n.String()
+		_ = n.Text(10)
+		_ = n.Append(nil, 10)
 		return result{}
 	}
 }
@@ -434,7 +437,14 @@ func check(c Case, st *core.Stats) error {
 	var r result
 	core.Guard(st, func() { r = f(c) }) // a panic is re-raised and reported by the runner
 	st.Class("entry:" + c.Entry)
-	st.NonTrivial(c.Entry)
+	parseEntry := strings.Contains(c.Entry, "String") && strings.Contains(c.Entry, "Set") || strings.HasSuffix(c.Entry, "NewFromString") ||
+		strings.HasSuffix(c.Entry, "UnmarshalText") || strings.HasSuffix(c.Entry, "UnmarshalJSON") || strings.HasSuffix(c.Entry, ".Scan") ||
+		strings.HasSuffix(c.Entry, "GobDecode") || strings.HasSuffix(c.Entry, "Compose")
+	if r.rejected || (parseEntry && r.parsed == nil && len(r.decs) == 0) {
+		st.Class("rejected-by-argument-validation")
+	} else {
+		st.NonTrivial(c.Entry)
+	}
 	if c.Ctx.P == 0 {
 		st.Class("precision-0")
 	}
